@@ -422,6 +422,7 @@ def descent_decided_pairs(lib, rnd, want, tries=60):
 
 def threads(shard, rec, lib, scratch):
     rnd = G.rng("c15t", shard["seed"], shard["idx"])
+    dd_rounds = [descent_decided_pairs(lib, rnd, 3) for _ in range(shard["rounds"])]     # selected before line monitoring is switched on
     old_si = sys.getswitchinterval()
     sys.setswitchinterval(1e-5)
     mon = getattr(sys, "monitoring", None)
@@ -464,7 +465,7 @@ def threads(shard, rec, lib, scratch):
                 if g:
                     pool.append({"op": "fix", "text": list(g[0]), "tk": "tuple", "bg": list(g[1]), "bk": "tuple", "large": False, "mode": 1, "vr": False,
                                  "t": list(g[0]), "b": list(g[1])})
-            dd = descent_decided_pairs(lib, rnd, 3)
+            dd = dd_rounds[rd]
             rec.count("descent_decided_probes_in_thread_pools", len(dd))
             pool += dd
             plans = [[pool[rnd.randrange(len(pool))] for _ in range(nops)] for _ in range(nthreads)]
